@@ -402,10 +402,13 @@ func (l *log) delete(offsets map[int64]struct{}) ([]Message, int64, error) {
 
 	wasWriter := false
 	var writerVersion message.Version
+	var writerSize int64 = -1
 	l.writerMu.Lock()
 	if l.writer.reader == rdr {
 		wasWriter = true
 		writerVersion = l.writer.messages.Version()
+		// everything up to here is completely written, a publish might be appending after it while we rewrite
+		writerSize = l.writer.messages.Size()
 		if err := l.writer.Sync(); err != nil {
 			l.writerMu.Unlock()
 			return nil, 0, err
@@ -442,7 +445,7 @@ func (l *log) delete(offsets map[int64]struct{}) ([]Message, int64, error) {
 			mversion, iversion = message.V2, index.V2
 		}
 	}
-	rs, err := rdr.segment.Rewrite(offsets, l.params, mversion, iversion)
+	rs, err := rdr.segment.Rewrite(offsets, l.params, mversion, iversion, writerSize)
 	if err != nil {
 		return nil, 0, err
 	}
